@@ -205,3 +205,24 @@ def chunks(seq, n):
         out.append(seq[i:i + step])
         i += step
     return out
+
+
+def pool_map(ctx, fn, jobs, workers=None):
+    """Run fn over jobs in forked worker processes and return the results in order.  Unlike
+    multiprocessing.Pool this notices a worker that died (OOM kill, crash): a machinery failure,
+    never a silent hang."""
+    import multiprocessing
+    from concurrent.futures import ProcessPoolExecutor
+    from concurrent.futures.process import BrokenProcessPool
+    ex = ProcessPoolExecutor(max_workers=workers or ctx.ncpu, mp_context=multiprocessing.get_context("fork"))
+    try:
+        futs = [ex.submit(fn, j) for j in jobs]
+        out = []
+        for f in futs:
+            try:
+                out.append(f.result())
+            except BrokenProcessPool:
+                raise MachineryError("a worker process died while executing %s (killed or crashed)" % fn.__name__)
+        return out
+    finally:
+        ex.shutdown(wait=True, cancel_futures=True)
